@@ -73,6 +73,19 @@ def run(c):
                          'bits of bit-field writes) differs from the Lean builder, and no value that decodes wrongly was found',
                          'obligation': f'H-layout {lab} stream', 'config_yaml': cs.text, 'query': qq,
                          'implementation': exp, 'model': got}, found_input=False)
+    # the serialisation templates choose between the macros and the memcpy fast path: integers of generated, bit-packed
+    # configurations (byte-sized integers that are not byte-aligned among them) written by the compiled tracer and read
+    # back bit by bit with the metadata layout
+    if not c.violations:
+        from checks import rtcommon as rt, c01
+        from harness import hrt
+        nb, kb = (8, 30) if c.tier == 'quick' else (40, 80)
+        # tracing stays enabled in these histories (what a disabled tracer ignores is finding F9, registered under the
+        # properties it belongs to, not under C08)
+        cases_b, dis_b, stats_b = rt.run_rt(c, c01.oracle, nb, kb, gen_hist=rt.flushing(hrt.gen_history),
+                                            hist_kwargs={'toggles': False},
+                                            label='H-runtime (bit-packed integers)', profile='rt-bits', seed_base=800)
+        rt.decide(c, ob, dis_b, oracle=c01.oracle, hist_kwargs={'toggles': False})
     if c.tier == 'thorough' and ob['ok']:
         ok, log = c.leanchecker(['BVM.Props.C08'])
         if not ok:
